@@ -572,6 +572,63 @@ func cdecOp(c *Ctx, op string) {
 		v = callClient(proto, kind, sc, nil, [][]byte{{}})
 		return showView(kind, v)
 	})
+	// non-200 without a valid protocol-level error: the call fails, with the code the protocol's
+	// HTTP-status table gives (tables restated here from the protocol documents)
+	carriesError := false
+	for _, it := range r.body {
+		if (it.kind == "ej" || it.kind == "ejz") && it.err.code != 0 {
+			carriesError = true
+		}
+	}
+	if r.status != 200 && !strings.HasPrefix(ans, "PANIC") {
+		if v.err == nil {
+			c.Fail("client-non200-success", op, ans, "a non-200 response was reported as success")
+		} else if w, _, ok := errView(v.err); ok && !carriesError {
+			want := httpStatusCode(proto, r.status)
+			if enc := r.header["Content-Encoding"]; proto == "connect" && kind == "unary" && len(enc) > 0 && enc[0] != "identity" && enc[0] != "gzip" && enc[0] != "rle" {
+				want = 13 // unknown encoding is reported first
+			}
+			if w.code != want {
+				c.Fail("client-non200-code", op, ans, fmt.Sprintf("a non-200 response without a protocol-level error must get the code derived from the HTTP status (%d)", want))
+			}
+		}
+	}
+	// a conformant peer's error (plain or compressed with a negotiated algorithm) is decoded to
+	// the same code and message
+	if proto == "connect" && kind == "unary" && r.status != 200 && len(r.body) == 1 && (r.body[0].kind == "ej" || r.body[0].kind == "ejz") && r.body[0].err.code >= 1 && r.body[0].err.code <= 16 {
+		enc := ""
+		if e := r.header["Content-Encoding"]; len(e) > 0 {
+			enc = e[0]
+		}
+		conformant := (r.body[0].kind == "ej" && (enc == "" || enc == "identity")) || (r.body[0].kind == "ejz" && (enc == "gzip" || enc == "rle"))
+		if conformant && v.err != nil {
+			if w, _, ok := errView(v.err); ok && (w.code != r.body[0].err.code || w.msg != r.body[0].err.msg) {
+				c.Fail("peer-error-decoded", op, ans, "a conformant peer's error response was not decoded to the code and message it carries")
+			}
+		}
+	}
+	// end-of-stream metadata must be found under the canonical key whatever casing the peer used
+	if v.err == nil && v.hasHT {
+		for _, it := range r.body {
+			if it.kind != "end" {
+				continue
+			}
+			for k, vs := range it.header {
+				got := v.trailer.Values(http.CanonicalHeaderKey(k))
+				for _, want := range vs {
+					found := false
+					for _, g := range got {
+						if g == want {
+							found = true
+						}
+					}
+					if !found {
+						c.Fail("client-header-case", op, ans, "trailer sent as "+k+" is not found by a lookup of "+http.CanonicalHeaderKey(k))
+					}
+				}
+			}
+		}
+	}
 	if strings.HasPrefix(ans, "PANIC") {
 		c.Fail("client-panic", op, ans, "the client panicked on a response")
 	} else if v.err != nil {
@@ -585,6 +642,129 @@ func cdecOp(c *Ctx, op string) {
 	}
 	c.Count("cdec:" + proto + "/" + kind)
 	c.Emit(op, ans, true)
+}
+
+// the HTTP-status → code tables of the Connect and gRPC protocol documents
+func httpStatusCode(proto string, status int) int {
+	if proto == "connect" {
+		switch status {
+		case 400:
+			return 3
+		case 401:
+			return 16
+		case 403:
+			return 7
+		case 404:
+			return 12
+		case 408:
+			return 4
+		case 412:
+			return 9
+		case 413, 431:
+			return 8
+		case 429, 502, 503, 504:
+			return 14
+		}
+		return 2
+	}
+	switch status {
+	case 400:
+		return 13
+	case 401:
+		return 16
+	case 403:
+		return 7
+	case 404:
+		return 12
+	case 429, 502, 503, 504:
+		return 14
+	}
+	return 2
+}
+
+// failingBody delivers data and then fails (a response that promises more than it delivers).
+type failingBody struct {
+	data []byte
+	err  error
+}
+
+func (f *failingBody) Read(p []byte) (int, error) {
+	if len(f.data) == 0 {
+		return 0, f.err
+	}
+	n := copy(p, f.data)
+	f.data = f.data[n:]
+	return n, nil
+}
+func (f *failingBody) Close() error { return nil }
+
+type bodyClient struct {
+	status int
+	header http.Header
+	body   io.ReadCloser
+}
+
+func (b *bodyClient) Do(req *http.Request) (*http.Response, error) {
+	go func() { _, _ = io.Copy(io.Discard, req.Body); _ = req.Body.Close() }()
+	return &http.Response{StatusCode: b.status, Status: strconv.Itoa(b.status), Proto: "HTTP/2.0", ProtoMajor: 2, Header: b.header, Body: b.body, Request: req}, nil
+}
+
+// extraProbes: oracle-only cases that the structured ops cannot express.
+func extraProbes(c *Ctx) {
+	// (1) every error a client API returns can be inspected as a Connect error — including the one
+	// from closing a response whose body fails while being drained
+	for _, proto := range []string{"connect", "grpc", "grpcweb"} {
+		bc := &bodyClient{status: 200, header: http.Header{"Content-Type": {ctFor(proto, "server", "raw")}},
+			body: &failingBody{data: append(frame(0, []byte{1}), frame(0, []byte{2})...), err: errTransport}}
+		opts := []connect.ClientOption{connect.WithCodec(rawCodec{"raw"})}
+		if proto == "grpc" {
+			opts = append(opts, connect.WithGRPC())
+		} else if proto == "grpcweb" {
+			opts = append(opts, connect.WithGRPCWeb())
+		}
+		cl := connect.NewClient[[]byte, []byte](bc, "http://h/s/m", opts...)
+		s, err := cl.CallServerStream(context.Background(), connect.NewRequest(&[]byte{}))
+		c.Count("probe-close-error")
+		if err == nil {
+			s.Receive()
+			if cerr := s.Close(); cerr != nil {
+				var ce *connect.Error
+				if !errors.As(cerr, &ce) {
+					c.Fail("client-uncoded-close", "server stream on "+proto+": body fails while Close drains it", cerr.Error(), "an error returned by the client API cannot be inspected as a Connect error")
+				} else if ce.Code() == 0 {
+					c.Fail("client-zero-code", "close "+proto, cerr.Error(), "zero code")
+				}
+			}
+		}
+	}
+	// (2) Content-Type echo for the bare gRPC media types (real protobuf messages)
+	for _, ct := range []string{"application/grpc", "application/grpc-web", "application/grpc+proto", "application/grpc-web+json", "application/connect+proto", "application/proto", "application/json"} {
+		h := connect.NewUnaryHandler("/s/m", func(ctx context.Context, r *connect.Request[wrapperspb.Int64Value]) (*connect.Response[wrapperspb.Int64Value], error) {
+			return connect.NewResponse(&wrapperspb.Int64Value{Value: 1}), nil
+		})
+		if strings.Contains(ct, "connect+") {
+			h = connect.NewClientStreamHandler("/s/m", func(ctx context.Context, s *connect.ClientStream[wrapperspb.Int64Value]) (*connect.Response[wrapperspb.Int64Value], error) {
+				return connect.NewResponse(&wrapperspb.Int64Value{Value: 1}), nil
+			})
+		}
+		body := frame(0, nil)
+		if ct == "application/proto" {
+			body = nil
+		} else if ct == "application/json" {
+			body = []byte("{}")
+		} else if strings.HasSuffix(ct, "json") {
+			body = frame(0, []byte("{}"))
+		}
+		req := httptest.NewRequest(http.MethodPost, "/s/m", bytes.NewReader(body))
+		req.ProtoMajor, req.ProtoMinor = 2, 0
+		req.Header["Content-Type"] = []string{ct}
+		rec := httptest.NewRecorder()
+		h.ServeHTTP(rec, req)
+		c.Count("probe-content-type-echo")
+		if got := rec.Result().Header.Get("Content-Type"); got != ct {
+			c.Fail("wire-content-type-echo", "request Content-Type "+ct, got, "the response Content-Type must echo the request's")
+		}
+	}
 }
 
 // --- generators -----------------------------------------------------------------------------
@@ -688,6 +868,8 @@ func streamProto(c *Ctx) {
 				results = append(results, goErr{kind: "plain", text: txt})
 			}
 			results = append(results, goErr{kind: "coded", w: &wireErr{code: 5, msg: strings.Repeat("long message ", 400)}, meta: hdr{}})
+			// a handler that proxies an upstream error unchanged: its metadata carries the status keys
+			results = append(results, goErr{kind: "coded", w: &wireErr{code: 5, msg: "proxied"}, meta: hdr{"Grpc-Status": {"5"}, "Grpc-Message": {"proxied"}, "X-Up": {"1"}}})
 			for i := 0; i < reps; i++ {
 				results = append(results, goErr{kind: "none"})
 			}
@@ -727,6 +909,7 @@ func streamProto(c *Ctx) {
 	}
 	_ = responses
 	mutatedResponses(c)
+	extraProbes(c)
 }
 
 // mutatedResponses: structured mutations of valid responses and hostile ones (C06).
@@ -782,6 +965,9 @@ func mutatedResponses(c *Ctx) {
 						cdecOp(c, cdecLine(proto, kind, &sresp{status: status, header: hdr{"Content-Type": {"application/json"}, "X-H": {"1"}, "Trailer-X-T": {"2"}, "Trailer-Trace-Id": {"3"}}, body: []bodyItem{{kind: "ej", err: w}}}))
 					}
 					cdecOp(c, cdecLine(proto, kind, &sresp{status: status, header: hdr{"Content-Type": {"application/json"}}, body: []bodyItem{{kind: "raw", data: []byte("not json")}}}))
+				}
+				for _, enc := range []string{"rle", "gzip", "identity", "br"} {
+					cdecOp(c, cdecLine(proto, kind, &sresp{status: 404, header: hdr{"Content-Type": {"application/json"}, "Content-Encoding": {enc}}, body: []bodyItem{{kind: "ejz", err: okErr}}}))
 				}
 				cdecOp(c, cdecLine(proto, kind, &sresp{status: 200, header: hdr{"Content-Type": {ct}, "Content-Encoding": {"br"}}, body: []bodyItem{{kind: "raw", data: []byte{1}}}}))
 				cdecOp(c, cdecLine(proto, kind, &sresp{status: 200, header: hdr{"Content-Type": {ct}, "Content-Encoding": {"rle"}}, body: []bodyItem{{kind: "raw", data: rleCompress([]byte{1, 1, 1})}}}))
